@@ -1055,3 +1055,1239 @@ Proof.
       inversion Hnds as [|i' l' Hi' _]; subst. intros Heq. apply Hi'. rewrite <- Heq.
       apply in_flat_map. exists k. split; [exact Hkin|]. destruct k. left. reflexivity. }
 Qed.
+
+(* ------------------------------------------------------------------------------------------ *)
+(** * 9. [TreeJob]: the first-order description of "the events of this trace form a tree" *)
+
+(** reachable from a parentless event through the child id lists *)
+Inductive Reach (job : list oevent) : oevent -> Prop :=
+| reach_root r : In r job -> epar r = None -> Reach job r
+| reach_kid e k : Reach job e -> In k job -> In (eid k) (ekids e) -> Reach job k.
+
+Record TreeJob (job : list oevent) : Prop := {
+  (* unique ids *)
+  tj_ids : NoDup (map eid job);
+  (* exactly one root *)
+  tj_root : exists r, filter is_root job = [r];
+  (* child lists consistent with parent pointers: no child listed twice, every listed child is an
+     event of the job and points back to the lister *)
+  tj_kids_nodup : forall e, In e job -> NoDup (ekids e);
+  tj_kids : forall e c, In e job -> In c (ekids e) ->
+            exists k, In k job /\ eid k = c /\ epar k = Some (eid e);
+  (* all reachable *)
+  tj_reach : forall e, In e job -> Reach job e
+}.
+
+Lemma Reach_In job e : Reach job e -> In e job.
+Proof. destruct 1; assumption. Qed.
+
+Lemma eid_inj job x y : NoDup (map eid job) -> In x job -> In y job -> eid x = eid y -> x = y.
+Proof. intros. eapply NoDup_map_inj; eassumption. Qed.
+
+Lemma opt_eqb_spec a b : opt_eqb a b = true <-> a = b.
+Proof.
+  destruct a as [x|], b as [y|]; cbn [opt_eqb]; try (split; [discriminate|intros H; inversion H]).
+  - rewrite Pos.eqb_eq. split; [intros ->; reflexivity|intros H; inversion H; reflexivity].
+  - split; reflexivity.
+Qed.
+
+Lemma kids_point_back_spec job :
+  kids_point_back job = true <->
+  forall e c, In e job -> In c (ekids e) -> exists k, get c job = Some k /\ epar k = Some (eid e).
+Proof.
+  unfold kids_point_back. rewrite forallb_forall. split.
+  - intros H e c He Hc. specialize (H e He). rewrite forallb_forall in H. specialize (H c Hc).
+    destruct (get c job) as [k|]; [|discriminate]. exists k. split; [reflexivity|].
+    apply opt_eqb_spec. exact H.
+  - intros H e He. apply forallb_forall. intros c Hc. destruct (H e c He Hc) as [k [-> Hk]].
+    apply opt_eqb_spec. exact Hk.
+Qed.
+
+(** a listed child of an event of a [TreeJob] points back *)
+Lemma tj_kid_par job e k : TreeJob job -> In e job -> In k job -> In (eid k) (ekids e) ->
+  epar k = Some (eid e).
+Proof.
+  intros HT He Hk Hc. destruct (tj_kids job HT e (eid k) He Hc) as [k' [Hk' [Heq Hp]]].
+  rewrite (eid_inj job k k' (tj_ids job HT) Hk Hk' (eq_sym Heq)). exact Hp.
+Qed.
+
+(** every non-root event's parent is an event of the job: nothing is skipped *)
+Lemma Reach_parent job k : TreeJob job -> Reach job k ->
+  epar k = None \/ exists e, In e job /\ epar k = Some (eid e).
+Proof.
+  intros HT H. destruct H as [r Hr Hp|e k He Hk Hc]; [left; exact Hp|].
+  right. exists e. split; [apply Reach_In; exact He|].
+  apply (tj_kid_par job e k HT); [apply Reach_In; exact He|exact Hk|exact Hc].
+Qed.
+
+Lemma TreeJob_parents job : TreeJob job -> parents_present job = true.
+Proof.
+  intros HT. unfold parents_present. apply forallb_forall. intros k Hk.
+  destruct (Reach_parent job k HT (tj_reach job HT k Hk)) as [->|[e [He ->]]]; [reflexivity|].
+  apply mem_In. apply in_map. exact He.
+Qed.
+
+(** ** soundness of the checker *)
+Lemma NoDup_heads kids : NoDup (flat_map ids kids) -> NoDup (map sid kids).
+Proof.
+  induction kids as [|k kids IH]; intros H; [constructor|].
+  cbn [flat_map map] in *. constructor.
+  - intros Hin. apply in_map_iff in Hin. destruct Hin as [k' [Heq Hk']].
+    destruct k as [i ty st en pl ks]. cbn [ids sid app] in *. apply NoDup_cons_iff in H.
+    destruct H as [Hx _]. apply Hx. apply in_or_app. right. apply in_flat_map. exists k'. split; [exact Hk'|].
+    rewrite <- Heq. destruct k'. left. reflexivity.
+  - apply IH. eapply NoDup_app_r. exact H.
+Qed.
+
+Lemma rep_reach job t0 : NoDup (map eid job) -> rep job t0 ->
+  (forall e0, get (sid t0) job = Some e0 -> Reach job e0) ->
+  forall s e, In s (nodes t0) -> get (sid s) job = Some e -> Reach job e.
+Proof.
+  intros Hnd. induction t0 as [i ty st en pl kids IH] using span_ind'. intros Hrep H0 s e Hs He.
+  rewrite Forall_forall in IH. cbn [nodes] in Hs. destruct Hs as [<-|Hs]; [apply H0; exact He|].
+  apply in_flat_map in Hs. destruct Hs as [k [Hk Hs]].
+  apply (IH k Hk) with (s := s); [| |exact Hs|exact He].
+  - eapply rep_sub; [exact Hrep|]. eapply nodes_kid; [exact Hk|apply node_self].
+  - intros ek Hek.
+    destruct (Hrep _ (node_self _)) as [e0 [He0 Hm0]].
+    apply reach_kid with (e := e0); [apply H0; exact He0|eapply get_In; exact Hek|].
+    destruct Hm0 as [_ [_ [_ [_ [_ Hk0]]]]]. cbn [skids] in Hk0. rewrite <- Hk0.
+    rewrite (get_eid _ _ _ Hek). apply in_map. exact Hk.
+Qed.
+
+Theorem tree_jobb_sound job : tree_jobb job = true -> TreeJob job.
+Proof.
+  unfold tree_jobb. destruct (build_tree job) as [t|] eqn:Hb; [|discriminate]. intros Hpb.
+  destruct (build_tree_facts job t Hb) as [Hnd [Hndt [Hrep [Hperm [r [Hroot Hmr]]]]]].
+  pose proof (proj1 (kids_point_back_spec job) Hpb) as Hback.
+  assert (Hnode : forall e, In e job -> exists s, In s (nodes t) /\ matches e s).
+  { intros e He.
+    assert (Hi : In (eid e) (ids t)).
+    { eapply Permutation_in; [apply Permutation_sym; exact Hperm|apply in_map; exact He]. }
+    apply in_ids_node in Hi. destruct Hi as [s [Hs Hsid]].
+    destruct (Hrep s Hs) as [e' [He' Hm]]. rewrite Hsid, (get_nodup _ _ Hnd He) in He'.
+    inversion He'; subst e'. exists s. split; assumption. }
+  constructor.
+  - exact Hnd.
+  - exists r. exact Hroot.
+  - intros e He. destruct (Hnode e He) as [s [Hs [_ [_ [_ [_ [_ Hk]]]]]]]. rewrite <- Hk.
+    pose proof (nodes_NoDup t s Hndt Hs) as Hn. destruct s as [i ty st en pl kids].
+    cbn [ids skids] in *. inversion Hn; subst. apply NoDup_heads. assumption.
+  - intros e c He Hc. destruct (Hback e c He Hc) as [k [Hk Hp]].
+    exists k. split; [eapply get_In; exact Hk|]. split; [eapply get_eid; exact Hk|exact Hp].
+  - intros e He. destruct (Hnode e He) as [s [Hs [Hsid _]]].
+    apply (rep_reach job t Hnd Hrep) with (s := s); [|exact Hs|].
+    + intros e0 He0. destruct Hmr as [Hs0 _]. rewrite Hs0 in He0.
+      assert (Hr : In r (filter is_root job)) by (rewrite Hroot; left; reflexivity).
+      apply filter_In in Hr. destruct Hr as [Hr Hroot1].
+      rewrite (get_nodup _ _ Hnd Hr) in He0. inversion He0; subst e0.
+      apply reach_root; [exact Hr|]. unfold is_root in Hroot1. destruct (epar r); [discriminate|reflexivity].
+    + rewrite Hsid. apply get_nodup; assumption.
+Qed.
+
+(* ------------------------------------------------------------------------------------------ *)
+(** * 10. Completeness of the checker: a [TreeJob] is built by [build_tree] *)
+
+(** [Up job j x a]: [a] is [j] parent pointers above [x] *)
+Inductive Up (job : list oevent) : nat -> oevent -> oevent -> Prop :=
+| up_0 x : Up job 0 x x
+| up_S j x y a : epar x = Some (eid y) -> In y job -> Up job j y a -> Up job (S j) x a.
+
+(** depth below the parentless event *)
+Definition Lvl (job : list oevent) (m : nat) (x : oevent) : Prop :=
+  exists r, Up job m x r /\ epar r = None.
+
+Lemma Up_fun job : NoDup (map eid job) -> forall j x a b, Up job j x a -> Up job j x b -> a = b.
+Proof.
+  intros Hnd j x a b H. revert b. induction H as [x|j x y a Hp Hy _ IH]; intros b Hb.
+  - inversion Hb. reflexivity.
+  - inversion Hb as [|j' x' y' b' Hp' Hy' Hb']; subst. apply IH.
+    rewrite Hp in Hp'. inversion Hp' as [Heq].
+    rewrite (eid_inj job y y' Hnd Hy Hy' Heq). exact Hb'.
+Qed.
+
+Lemma Up_trans job j x a : Up job j x a -> forall k b, Up job k a b -> Up job (j + k) x b.
+Proof.
+  induction 1 as [x|j x y a Hp Hy _ IH]; intros k b Hb; [exact Hb|].
+  cbn [Nat.add]. eapply up_S; [exact Hp|exact Hy|apply IH; exact Hb].
+Qed.
+
+Lemma Lvl_fun job : NoDup (map eid job) -> forall m x m', Lvl job m x -> Lvl job m' x -> m = m'.
+Proof.
+  intros Hnd m x m' [r [H Hr]]. revert m'. induction H as [x|j x y a Hp Hy _ IH]; intros m' [r' [H' Hr']].
+  - inversion H' as [|j' x' y' a' Hp' _ _]; [reflexivity|]. subst. congruence.
+  - inversion H' as [|j' x' y' a' Hp' Hy' Hu']; subst; [congruence|].
+    f_equal. apply (IH Hr). exists r'. split; [|exact Hr'].
+    rewrite Hp in Hp'. inversion Hp' as [Heq].
+    rewrite (eid_inj job y y' Hnd Hy Hy' Heq). exact Hu'.
+Qed.
+
+Lemma Lvl_up job m x j a : Lvl job m a -> Up job j x a -> Lvl job (j + m) x.
+Proof. intros [r [H Hr]] Hu. exists r. split; [eapply Up_trans; eassumption|exact Hr]. Qed.
+
+Lemma Lvl_kid job m e k : In e job -> epar k = Some (eid e) -> Lvl job m e -> Lvl job (S m) k.
+Proof.
+  intros He Hp H. apply (Lvl_up job m k 1 e H). eapply up_S; [exact Hp|exact He|constructor].
+Qed.
+
+Lemma Reach_Lvl job e : TreeJob job -> Reach job e -> exists m, Lvl job m e.
+Proof.
+  intros HT. induction 1 as [r Hr Hp|e k He [m IH] Hk Hc].
+  - exists O, r. split; [constructor|exact Hp].
+  - exists (S m). apply (Lvl_kid job m e k (Reach_In _ _ He)); [|exact IH].
+    apply (tj_kid_par job e k HT); [apply Reach_In; exact He|exact Hk|exact Hc].
+Qed.
+
+(** the parent chain of an event at depth [m] consists of [m+1] distinct events of the job *)
+Lemma Up_chain job : NoDup (map eid job) -> forall m x r, Up job m x r -> epar r = None -> In x job ->
+  exists l, length l = S m /\ incl l job /\ NoDup l
+            /\ forall z, In z l -> exists j, (j <= m)%nat /\ Lvl job j z.
+Proof.
+  intros Hnd m x r H Hr. induction H as [x|j x y a Hp Hy Hu IH]; intros Hx.
+  - exists [x]. split; [reflexivity|]. split; [intros z [<-|[]]; exact Hx|].
+    split; [constructor; [intros []|constructor]|].
+    intros z [<-|[]]. exists O. split; [apply le_n|]. exists x. split; [constructor|exact Hr].
+  - destruct (IH Hr Hy) as [l [Hlen [Hincl [Hndl Hlv]]]].
+    assert (HLx : Lvl job (S j) x) by (exists a; split; [eapply up_S; eassumption|exact Hr]).
+    exists (x :: l). split; [cbn [length]; rewrite Hlen; reflexivity|].
+    split; [intros z [<-|Hz]; [exact Hx|apply Hincl; exact Hz]|].
+    split.
+    + constructor; [|exact Hndl]. intros Hin. destruct (Hlv x Hin) as [j' [Hle HL]].
+      pose proof (Lvl_fun job Hnd _ _ _ HLx HL). lia.
+    + intros z [<-|Hz]; [exists (S j); split; [apply le_n|exact HLx]|].
+      destruct (Hlv z Hz) as [j' [Hle HL]]. exists j'. split; [lia|exact HL].
+Qed.
+
+Lemma Lvl_bound job m x : NoDup (map eid job) -> Lvl job m x -> In x job -> (m < length job)%nat.
+Proof.
+  intros Hnd [r [H Hr]] Hx. destruct (Up_chain job Hnd m x r H Hr Hx) as [l [Hlen [Hincl [Hndl _]]]].
+  pose proof (NoDup_incl_length Hndl Hincl). lia.
+Qed.
+
+Lemma map_opt_some {A B} (f : A -> option B) l :
+  (forall x, In x l -> exists y, f x = Some y) -> exists ys, map_opt f l = Some ys.
+Proof.
+  induction l as [|x l IH]; intros H; [exists []; reflexivity|].
+  destruct (H x (or_introl eq_refl)) as [y Hy].
+  destruct IH as [ys Hys]; [intros z Hz; apply H; right; exact Hz|].
+  exists (y :: ys). cbn [map_opt]. rewrite Hy, Hys. reflexivity.
+Qed.
+
+(** the listed children of an event of a [TreeJob], as events *)
+Lemma tj_get_kids job e : TreeJob job -> In e job ->
+  exists kids, get_all job (ekids e) = Some kids
+               /\ forall k, In k kids -> In k job /\ epar k = Some (eid e).
+Proof.
+  intros HT He.
+  destruct (get_all_some job (ekids e)) as [kids Hk].
+  { intros c Hc. destruct (tj_kids job HT e c He Hc) as [k [Hk [<- _]]]. apply in_map. exact Hk. }
+  exists kids. split; [exact Hk|]. intros k Hin.
+  pose proof (get_all_ids _ _ _ Hk) as Hids. apply get_all_spec in Hk.
+  destruct (Forall2_in_r _ _ _ _ Hk Hin) as [c [Hc Hg]].
+  pose proof (get_In _ _ _ Hg) as Hkj. split; [exact Hkj|].
+  apply (tj_kid_par job e k HT He Hkj). rewrite (get_eid _ _ _ Hg). exact Hc.
+Qed.
+
+Lemma build_succeeds job : TreeJob job -> forall fuel e m,
+  In e job -> Lvl job m e -> (length job <= fuel + m)%nat -> exists t, build fuel job e = Some t.
+Proof.
+  intros HT. induction fuel as [|f IH]; intros e m He HL Hf.
+  - pose proof (Lvl_bound job m e (tj_ids job HT) HL He). lia.
+  - destruct (tj_get_kids job e HT He) as [kids [Hk Hkids]].
+    cbn [build]. rewrite Hk.
+    destruct (map_opt_some (build f job) kids) as [ks Hks].
+    { intros k Hin. destruct (Hkids k Hin) as [Hkj Hp].
+      apply (IH k (S m) Hkj); [apply (Lvl_kid job m e k He Hp HL)|lia]. }
+    rewrite Hks. eexists. reflexivity.
+Qed.
+
+Lemma NoDup_app_intro {A} (a b : list A) :
+  NoDup a -> NoDup b -> (forall x, In x a -> ~ In x b) -> NoDup (a ++ b).
+Proof.
+  induction a as [|x a IH]; intros Ha Hb Hd; [exact Hb|].
+  cbn [app]. inversion Ha as [|x' a' Hx Ha']; subst. constructor.
+  - intros Hin. apply in_app_or in Hin. destruct Hin as [Hin|Hin]; [contradiction|].
+    apply (Hd x (or_introl eq_refl) Hin).
+  - apply IH; [exact Ha'|exact Hb|]. intros y Hy. apply Hd. right. exact Hy.
+Qed.
+
+Lemma NoDup_flat_map_disj kids :
+  NoDup (map sid kids) -> (forall k, In k kids -> NoDup (ids k)) ->
+  (forall k1 k2 x, In k1 kids -> In k2 kids -> In x (ids k1) -> In x (ids k2) -> sid k1 = sid k2) ->
+  NoDup (flat_map ids kids).
+Proof.
+  induction kids as [|k kids IH]; intros Hs Hn Hd; [constructor|].
+  cbn [map flat_map] in *. inversion Hs as [|s l Hk Hs']; subst.
+  apply NoDup_app_intro.
+  - apply Hn. left. reflexivity.
+  - apply IH; [exact Hs'|intros k' Hk'; apply Hn; right; exact Hk'|].
+    intros k1 k2 x H1 H2. apply Hd; right; assumption.
+  - intros x Hx Hin. apply in_flat_map in Hin. destruct Hin as [k2 [Hk2 Hx2]].
+    apply Hk. rewrite (Hd k k2 x (or_introl eq_refl) (or_intror Hk2) Hx Hx2).
+    apply in_map. exact Hk2.
+Qed.
+
+(** a tree built over a [TreeJob] has no repeated id *)
+Lemma built_nodup job : TreeJob job -> forall t e m,
+  rep job t -> get (sid t) job = Some e -> Lvl job m e ->
+  NoDup (ids t)
+  /\ forall x, In x (ids t) -> exists ex j, get x job = Some ex /\ Up job j ex e.
+Proof.
+  intros HT. pose proof (tj_ids job HT) as Hnd.
+  induction t as [i ty st en pl kids IH] using span_ind'. intros e m Hrep He HL.
+  rewrite Forall_forall in IH. cbn [sid] in He.
+  pose proof (get_In _ _ _ He) as Hej.
+  destruct (Hrep _ (node_self _)) as [e' [He' Hm]]. cbn [sid] in He'. rewrite He in He'.
+  inversion He'; subst e'. clear He'.
+  destruct Hm as [_ [_ [_ [_ [_ Hk]]]]]. cbn [skids] in Hk.
+  (* the events of the kids *)
+  assert (Hkid : forall k, In k kids -> exists ek, get (sid k) job = Some ek /\ epar ek = Some (eid e)
+                                                   /\ rep job k).
+  { intros k Hkin.
+    destruct (Hrep k (nodes_kid (Span i ty st en pl kids) k k Hkin (node_self k))) as [ek [Hek _]].
+    exists ek. split; [exact Hek|]. split.
+    - apply (tj_kid_par job e ek HT Hej (get_In _ _ _ Hek)).
+      rewrite (get_eid _ _ _ Hek), <- Hk. apply in_map. exact Hkin.
+    - eapply rep_sub; [exact Hrep|]. eapply nodes_kid; [exact Hkin|apply node_self]. }
+  assert (Hsub : forall k x, In k kids -> In x (ids k) ->
+            exists ek ex j, get (sid k) job = Some ek /\ get x job = Some ex /\ Up job j ex ek
+                            /\ Up job (j + 1) ex e).
+  { intros k x Hkin Hx. destruct (Hkid k Hkin) as [ek [Hek [Hp Hrk]]].
+    destruct (IH k Hkin ek (S m) Hrk Hek (Lvl_kid job m e ek Hej Hp HL)) as [_ Hup].
+    destruct (Hup x Hx) as [ex [j [Hex Hu]]].
+    exists ek, ex, j. split; [exact Hek|]. split; [exact Hex|]. split; [exact Hu|].
+    eapply Up_trans; [exact Hu|]. eapply up_S; [exact Hp|exact Hej|constructor]. }
+  split.
+  - cbn [ids]. constructor.
+    + intros Hin. apply in_flat_map in Hin. destruct Hin as [k [Hkin Hx]].
+      destruct (Hsub k i Hkin Hx) as [ek [ex [j [_ [Hex [_ Hu]]]]]].
+      rewrite He in Hex. inversion Hex; subst ex.
+      pose proof (Lvl_up job m e (j + 1) e HL Hu) as HL2.
+      pose proof (Lvl_fun job Hnd _ _ _ HL HL2). lia.
+    + apply NoDup_flat_map_disj.
+      * rewrite Hk. apply (tj_kids_nodup job HT e Hej).
+      * intros k Hkin. destruct (Hkid k Hkin) as [ek [Hek [Hp Hrk]]].
+        apply (IH k Hkin ek (S m) Hrk Hek (Lvl_kid job m e ek Hej Hp HL)).
+      * intros k1 k2 x H1 H2 Hx1 Hx2.
+        destruct (Hsub k1 x H1 Hx1) as [ek1 [ex1 [j1 [Hek1 [Hex1 [Hu1 _]]]]]].
+        destruct (Hsub k2 x H2 Hx2) as [ek2 [ex2 [j2 [Hek2 [Hex2 [Hu2 _]]]]]].
+        rewrite Hex1 in Hex2. inversion Hex2; subst ex2.
+        destruct (Hkid k1 H1) as [ek1' [Hek1' [Hp1 _]]]. rewrite Hek1 in Hek1'. inversion Hek1'; subst ek1'.
+        destruct (Hkid k2 H2) as [ek2' [Hek2' [Hp2 _]]]. rewrite Hek2 in Hek2'. inversion Hek2'; subst ek2'.
+        pose proof (Lvl_up job (S m) ex1 j1 ek1 (Lvl_kid job m e ek1 Hej Hp1 HL) Hu1) as L1.
+        pose proof (Lvl_up job (S m) ex1 j2 ek2 (Lvl_kid job m e ek2 Hej Hp2 HL) Hu2) as L2.
+        pose proof (Lvl_fun job Hnd _ _ _ L1 L2) as Hj.
+        assert (j1 = j2) by lia. subst j2.
+        pose proof (Up_fun job Hnd _ _ _ _ Hu1 Hu2) as Heq. subst ek2.
+        rewrite <- (get_eid _ _ _ Hek1), <- (get_eid _ _ _ Hek2). reflexivity.
+  - intros x Hx. cbn [ids] in Hx. destruct Hx as [<-|Hx].
+    + exists e, O. split; [exact He|constructor].
+    + apply in_flat_map in Hx. destruct Hx as [k [Hkin Hx]].
+      destruct (Hsub k x Hkin Hx) as [ek [ex [j [_ [Hex [_ Hu]]]]]].
+      exists ex, (j + 1)%nat. split; assumption.
+Qed.
+
+(** everything reachable is in the tree built from the root *)
+Lemma reach_covered job t r : NoDup (map eid job) -> rep job t ->
+  filter is_root job = [r] -> sid t = eid r ->
+  forall e, Reach job e -> In (eid e) (ids t).
+Proof.
+  intros Hnd Hrep Hroot Hsid e H. induction H as [r' Hr' Hp|e k He IH Hk Hc].
+  - assert (Hin : In r' (filter is_root job)).
+    { apply filter_In. split; [exact Hr'|]. unfold is_root. rewrite Hp. reflexivity. }
+    rewrite Hroot in Hin. destruct Hin as [<-|[]]. rewrite <- Hsid.
+    destruct t. left. reflexivity.
+  - apply in_ids_node in IH. destruct IH as [s [Hs Hse]].
+    destruct (Hrep s Hs) as [e' [He' Hm]].
+    rewrite Hse, (get_nodup _ _ Hnd (Reach_In _ _ He)) in He'. inversion He'; subst e'.
+    destruct Hm as [_ [_ [_ [_ [_ Hks]]]]]. rewrite <- Hks in Hc.
+    apply in_map_iff in Hc. destruct Hc as [ks [Heq Hkin]].
+    apply in_ids_node. exists ks. split; [|exact Heq]. eapply nodes_skids; eassumption.
+Qed.
+
+Theorem tree_jobb_complete job : TreeJob job -> tree_jobb job = true.
+Proof.
+  intros HT. pose proof (tj_ids job HT) as Hnd.
+  destruct (tj_root job HT) as [r Hroot].
+  assert (Hr : In r job /\ epar r = None).
+  { assert (Hin : In r (filter is_root job)) by (rewrite Hroot; left; reflexivity).
+    apply filter_In in Hin. destruct Hin as [Hin Hb]. split; [exact Hin|].
+    unfold is_root in Hb. destruct (epar r); [discriminate|reflexivity]. }
+  destruct Hr as [Hr Hpr].
+  assert (HL0 : Lvl job 0 r) by (exists r; split; [constructor|exact Hpr]).
+  destruct (build_succeeds job HT (length job) r 0 Hr HL0) as [t Hb]; [lia|].
+  destruct (build_rep job _ r t (get_nodup _ _ Hnd Hr) Hb) as [Hm Hrep].
+  assert (Hsid : sid t = eid r) by (destruct Hm as [H _]; exact H).
+  assert (Hget : get (sid t) job = Some r) by (rewrite Hsid; apply get_nodup; assumption).
+  destruct (built_nodup job HT t r 0 Hrep Hget HL0) as [Hndt _].
+  assert (Hcov : incl (map eid job) (ids t)).
+  { intros i Hi. apply in_map_iff in Hi. destruct Hi as [e [<- He]].
+    apply (reach_covered job t r Hnd Hrep Hroot Hsid). apply (tj_reach job HT e He). }
+  assert (Hlen : length (ids t) = length job).
+  { pose proof (NoDup_incl_length Hndt (rep_ids_incl job t Hrep)) as H1.
+    pose proof (NoDup_incl_length Hnd Hcov) as H2. rewrite map_length in H1, H2. lia. }
+  unfold tree_jobb, build_tree.
+  rewrite (proj2 (nodupb_spec _) Hnd), Hroot, Hb, Hlen, Nat.eqb_refl, (proj2 (nodupb_spec _) Hndt).
+  cbn [andb]. apply kids_point_back_spec. intros e c He Hc.
+  destruct (tj_kids job HT e c He Hc) as [k [Hk [Heq Hp]]].
+  exists k. split; [|exact Hp]. rewrite <- Heq. apply get_nodup; assumption.
+Qed.
+
+Theorem tree_jobb_spec job : tree_jobb job = true <-> TreeJob job.
+Proof. split; [apply tree_jobb_sound|apply tree_jobb_complete]. Qed.
+
+Lemma TreeJob_build job : TreeJob job -> exists t, build_tree job = Some t.
+Proof.
+  intros HT. pose proof (tree_jobb_complete job HT) as H. unfold tree_jobb in H.
+  destruct (build_tree job) as [t|]; [exists t; reflexivity|discriminate].
+Qed.
+
+(* ------------------------------------------------------------------------------------------ *)
+(** * 11. (b) sequence_job_ok, and the rows are those of [SeqCheck.to_pv] on the built tree *)
+
+Theorem sequence_job_ok : forall async m rs job, TreeJob job ->
+  exists t rows,
+    build_tree job = Some t
+    /\ sequence_job async m rs job = JOk rows
+    (* each span exactly once, in stream order *)
+    /\ map rid rows = map eid job
+    (* timestamp = nano_to_pv (end), job id / job name / application copied *)
+    /\ Forall2 (fun e r => rts r = nano_to_pv (een e) /\ rjob r = njob (fst e)
+                           /\ rname r = nname (fst e) /\ rapp r = napp (fst e)) job rows
+    (* type = renamed type (dict pass = tree pass of Sequencer.v) *)
+    /\ (exists d', rename_job rs job = Some d' /\ map rty rows = map ety d')
+    /\ (forall s, In s (nodes (rename rs (map eid job) t)) ->
+          exists r, In r rows /\ rid r = sid s /\ rty r = sty s)
+    (* the links are exactly those of the sequencer on the tree *)
+    /\ (forall i ps, In (i, ps) (links_of rows) <-> In (i, ps) (sequence async m rs (map eid job) t))
+    (* every previous id is an id of the same job *)
+    /\ (forall r q, In r rows -> In q (rprev r) -> In q (map eid job))
+    (* the link relation is acyclic *)
+    /\ (forall a, ~ path (links_of rows) a a)
+    (* every span follows all its descendants *)
+    /\ (forall d a, JDesc job d a -> path (links_of rows) d a).
+Proof.
+  intros async m rs job HT. destruct (TreeJob_build job HT) as [t Hb].
+  destruct (sequence_job_tree async m rs job t Hb (TreeJob_parents job HT)) as [rows H].
+  exists t, rows. split; [exact Hb|exact H].
+Qed.
+
+Lemma find_node_sound t : forall i s, find_node i t = Some s -> In s (nodes t) /\ sid s = i.
+Proof.
+  induction t as [j ty st en pl kids IH] using span_ind'. intros i s H.
+  cbn [find_node] in H. destruct (Pos.eqb_spec i j) as [->|Hne].
+  - inversion H; subst. split; [apply node_self|reflexivity].
+  - cbn [nodes]. induction IH as [|k kids Hk _ IHk]; cbn [fold_right] in H; [discriminate|].
+    destruct (find_node i k) as [s'|] eqn:E.
+    + inversion H; subst s'. destruct (Hk i s E) as [H1 H2]. split; [|exact H2].
+      right. cbn [flat_map]. apply in_or_app. left. exact H1.
+    + destruct (IHk H) as [[H1|H1] H2].
+      * exfalso. subst s. cbn [sid] in H2. apply Hne. symmetry. exact H2.
+      * split; [|exact H2]. right. cbn [flat_map]. apply in_or_app. right. exact H1.
+Qed.
+
+Lemma find_node_complete t : forall i, In i (ids t) -> exists s, find_node i t = Some s.
+Proof.
+  induction t as [j ty st en pl kids IH] using span_ind'. intros i Hi.
+  cbn [find_node]. destruct (Pos.eqb_spec i j) as [->|Hne]; [eexists; reflexivity|].
+  cbn [ids] in Hi. destruct Hi as [Hi|Hi]; [exfalso; apply Hne; symmetry; exact Hi|].
+  induction IH as [|k kids Hk _ IHk]; cbn [flat_map fold_right] in *; [contradiction|].
+  destruct (find_node i k) as [s'|] eqn:E; [eexists; reflexivity|].
+  apply in_app_or in Hi. destruct Hi as [Hi|Hi]; [|apply IHk; exact Hi].
+  destruct (Hk i Hi) as [s Hs]. congruence.
+Qed.
+
+(** the same rows as C08's [to_pv] on the built tree (payload of a [span] := job id) *)
+Theorem sequence_job_to_pv : forall async m rs job t,
+  build_tree job = Some t -> parents_present job = true ->
+  exists rows, sequence_job async m rs job = JOk rows
+               /\ map row3_to_row rows = to_pv async m rs (map eid job) t.
+Proof.
+  intros async m rs job t Hb Hpp.
+  destruct (sequence_job_tree_links async m rs job t Hb Hpp) as [d' [rows [Hren [Her [Hrep' [Hseq HF]]]]]].
+  exists rows. split; [exact Hseq|].
+  unfold to_pv. set (t' := rename rs (map eid job) t) in *. set (l := seqf async m t' []) in *.
+  destruct (build_tree_facts job t Hb) as [Hnd [Hndt [_ [Hperm _]]]].
+  assert (Hndt' : NoDup (ids t')) by (unfold t'; rewrite ids_rename; exact Hndt).
+  assert (Hfind : forall e, In e d' -> exists s, find_node (eid e) t' = Some s /\ matches e s).
+  { intros e He.
+    assert (Hi : In (eid e) (ids t')).
+    { unfold t'. rewrite ids_rename. eapply Permutation_in; [apply Permutation_sym; exact Hperm|].
+      rewrite <- (erase_ids _ _ Her). apply in_map. exact He. }
+    destruct (find_node_complete t' _ Hi) as [s Hs]. exists s. split; [exact Hs|].
+    destruct (find_node_sound t' _ _ Hs) as [Hin Hsid].
+    destruct (Hrep' s Hin) as [e' [He' Hm]]. rewrite Hsid in He'.
+    assert (Hnd' : NoDup (map eid d')) by (rewrite (erase_ids _ _ Her); exact Hnd).
+    rewrite (get_nodup _ _ Hnd' He) in He'. inversion He'; subst e'. exact Hm. }
+  rewrite <- (erase_ids _ _ Her). unfold rows_of.
+  clear -HF Hfind. induction HF as [|e r d rows [ps [Hl ->]] _ IH]; [reflexivity|].
+  cbn [map flat_map].
+  destruct (Hfind e (or_introl eq_refl)) as [s [Hs [_ [H2 [_ [H4 [H5 _]]]]]]].
+  rewrite Hs, Hl. cbn [app]. f_equal.
+  - unfold row3_to_row, row_of, rid, rty, rprev, rts, rjob. rewrite H2, H4, H5. reflexivity.
+  - apply IH. intros x Hx. apply Hfind. right. exact Hx.
+Qed.
+
+(** ** non-vacuity: a shuffled five-span trace with a rename rule and a group map
+    (the group map is keyed by the RENAMED type 9: renaming happens before grouping) *)
+Definition ex_job : list oevent :=
+  [ ev 3 (Some 1%positive) 7 2 3 10 40 1 [4]%positive;
+    ev 1 None 7 2 1 0 100 1 [2; 3]%positive;
+    ev 4 (Some 3%positive) 7 2 4 20 30 2 [];
+    ev 2 (Some 1%positive) 7 2 2 50 60 1 [5]%positive;
+    ev 5 (Some 2%positive) 7 2 4 52 58 3 [] ]%positive.
+
+Example ex_job_tree : TreeJob ex_job.
+Proof. apply tree_jobb_spec. vm_compute. reflexivity. Qed.
+
+Example ex_job_build :
+  build_tree ex_job
+  = Some (Span 1 1 0 100 7 [Span 2 2 50 60 7 [Span 5 4 52 58 7 []];
+                            Span 3 3 10 40 7 [Span 4 4 20 30 7 []]])%positive.
+Proof. vm_compute. reflexivity. Qed.
+
+Example ex_job_rows :
+  sequence_job true [(1, [(2, 7); (9, 7)])]%positive [(3, (9, [4]))]%positive ex_job
+  = JOk [ (3, 9, [4], "1970-01-01T00:00:00.000000Z"%string, 7, 2, 1);
+          (1, 1, [3; 2], "1970-01-01T00:00:00.000000Z"%string, 7, 2, 1);
+          (4, 4, [], "1970-01-01T00:00:00.000000Z"%string, 7, 2, 2);
+          (2, 2, [5], "1970-01-01T00:00:00.000000Z"%string, 7, 2, 1);
+          (5, 4, [], "1970-01-01T00:00:00.000000Z"%string, 7, 2, 3) ]%positive.
+Proof. vm_compute. reflexivity. Qed.
+
+(* ------------------------------------------------------------------------------------------ *)
+(** * 12. (c) pipeline_exact: store -> stream -> PV rows *)
+
+(** every trace streamed from the store is a tree *)
+Definition StoreTrees (fm : list (positive * list positive)) (fn : list positive) (st : store) : Prop :=
+  forall nm jobs j, In (nm, jobs) (stream fm fn st) -> In j jobs -> TreeJob j.
+
+Lemma store_treesb_spec fm fn st : store_treesb fm fn st = true <-> StoreTrees fm fn st.
+Proof.
+  unfold store_treesb, StoreTrees. rewrite forallb_forall. split.
+  - intros H nm jobs j Hin Hj. specialize (H (nm, jobs) Hin). cbn [snd] in H.
+    rewrite forallb_forall in H. apply tree_jobb_spec. apply H. exact Hj.
+  - intros H [nm jobs] Hin. cbn [snd]. apply forallb_forall. intros j Hj.
+    apply tree_jobb_spec. eapply H; eassumption.
+Qed.
+
+Definition rows_of_result (r : job_result) : list pvrow3 :=
+  match r with JOk rows => rows | _ => [] end.
+
+(** all PV rows of a run, in output order *)
+Definition all_rows (out : list (positive * list job_result)) : list pvrow3 :=
+  flat_map (fun nr => flat_map rows_of_result (snd nr)) out.
+
+Definition trace_id (j : list oevent) : positive :=
+  match j with e :: _ => njob (fst e) | [] => 1%positive end.
+
+Lemma Forall2_map_r {A B} (R : A -> B -> Prop) (f : A -> B) l :
+  (forall x, In x l -> R x (f x)) -> Forall2 R l (map f l).
+Proof.
+  induction l as [|x l IH]; intros H; [constructor|].
+  cbn [map]. constructor; [apply H; left; reflexivity|]. apply IH. intros y Hy. apply H. right. exact Hy.
+Qed.
+
+Lemma NoDup_map_filter {A B} (f : A -> B) (p : A -> bool) l : NoDup (map f l) -> NoDup (map f (filter p l)).
+Proof.
+  induction l as [|x l IH]; intros H; [constructor|].
+  cbn [map filter] in *. inversion H as [|y l' Hx Hn]; subst.
+  destruct (p x); [|apply IH; exact Hn]. cbn [map]. constructor; [|apply IH; exact Hn].
+  intros Hin. apply Hx. apply in_map_iff in Hin. destruct Hin as [z [Hz Hin]].
+  apply filter_In in Hin. apply in_map_iff. exists z. split; [exact Hz|tauto].
+Qed.
+
+Lemma in_flatten (s : list (positive * list (list oevent))) nm jobs j e :
+  In (nm, jobs) s -> In j jobs -> In e j -> In e (flatten s).
+Proof.
+  intros H1 H2 H3. unfold flatten. apply in_concat. exists j. split; [|exact H3].
+  apply in_concat. exists jobs. split; [|exact H2].
+  apply in_map_iff. exists (nm, jobs). split; [reflexivity|exact H1].
+Qed.
+
+Lemma eid_nid (j : list oevent) : map eid j = map nid (map fst j).
+Proof. rewrite map_map. reflexivity. Qed.
+
+(** the rows of the whole run carry the ids of the whole stream, in order *)
+Lemma all_rows_ids async cfg (s : list (positive * list (list oevent))) :
+  (forall nm jobs j, In (nm, jobs) s -> In j jobs -> TreeJob j) ->
+  map rid (all_rows (otel_to_pv_model async cfg s)) = map eid (flatten s).
+Proof.
+  unfold flatten. induction s as [|[nm jobs] s IH]; intros H; [reflexivity|].
+  cbn [otel_to_pv_model map all_rows flat_map fst snd concat].
+  rewrite concat_app, !map_app. f_equal.
+  - assert (Hj : forall j, In j jobs -> TreeJob j) by (intros j Hj; apply (H nm jobs j); [left; reflexivity|exact Hj]).
+    clear -Hj. induction jobs as [|j jobs IHj]; [reflexivity|].
+    cbn [map flat_map concat]. rewrite !map_app. f_equal.
+    + destruct (sequence_job_ok async (fst (cfg nm)) (snd (cfg nm)) j (Hj j (or_introl eq_refl)))
+        as [t [rows [_ [-> [Hids _]]]]]. exact Hids.
+    + apply IHj. intros j' Hj'. apply Hj. right. exact Hj'.
+  - apply IH. intros nm' jobs' j H1 H2. apply (H nm' jobs' j); [right; exact H1|exact H2].
+Qed.
+
+Lemma out_inv async cfg (s : list (positive * list (list oevent))) nm res rows :
+  In (nm, res) (otel_to_pv_model async cfg s) -> In (JOk rows) res ->
+  exists jobs j, In (nm, jobs) s /\ In j jobs
+                 /\ sequence_job async (fst (cfg nm)) (snd (cfg nm)) j = JOk rows.
+Proof.
+  unfold otel_to_pv_model. intros H1 H2. apply in_map_iff in H1. destruct H1 as [[nm' jobs] [Heq Hin]].
+  cbn [fst snd] in Heq. inversion Heq; subst. apply in_map_iff in H2. destruct H2 as [j [Hj Hin2]].
+  exists jobs, j. split; [exact Hin|]. split; [exact Hin2|exact Hj].
+Qed.
+
+Lemma all_rows_inv out x : In x (all_rows out) ->
+  exists nm res rows, In (nm, res) out /\ In (JOk rows) res /\ In x rows.
+Proof.
+  unfold all_rows. intros H. apply in_flat_map in H. destruct H as [[nm res] [H1 H2]].
+  cbn [snd] in H2. apply in_flat_map in H2. destruct H2 as [r [H2 H3]].
+  destruct r as [| |rows]; try contradiction. exists nm, res, rows. auto.
+Qed.
+
+(** what one streamed trace of a well-formed store gives *)
+Lemma stream_job_rows async m rs fm fn st nm jobs j :
+  StoreTrees fm fn st -> In (nm, jobs) (stream fm fn st) -> In j jobs ->
+  exists rows, sequence_job async m rs j = JOk rows /\ map rid rows = map eid j
+               /\ (forall x, In x rows -> rname x = nm /\ rjob x = trace_id j)
+               /\ (forall x q, In x rows -> In q (rprev x) -> In q (map rid rows)).
+Proof.
+  intros HT Hin Hj.
+  destruct (sequence_job_ok async m rs j (HT nm jobs j Hin Hj))
+    as [t [rows [_ [Hs [Hids [Hcopy [_ [_ [_ [Hprev _]]]]]]]]]].
+  exists rows. split; [exact Hs|]. split; [exact Hids|]. split.
+  - intros x Hx. destruct (Forall2_in_r _ _ _ _ Hcopy Hx) as [e [He [_ [Hjob [Hname _]]]]].
+    destruct (stream_exact_model st fm fn) as [_ [_ [Hc _]]].
+    destruct (Hc nm jobs j e Hin Hj He) as [Hnm Hsame]. split; [congruence|].
+    rewrite Hjob. destruct j as [|e0 j']; [contradiction|]. cbn [trace_id].
+    symmetry. apply Hsame. left. reflexivity.
+  - intros x q Hx Hq. rewrite Hids. eapply Hprev; eassumption.
+Qed.
+
+Theorem pipeline_exact : forall async cfg fm fn st,
+  NoDup (Rel.ids (db st)) -> StoreTrees fm fn st ->
+  let s := stream fm fn st in
+  let out := otel_to_pv_model async cfg s in
+  (* each workflow name once *)
+  map fst out = map fst s /\ StronglySorted Pos.lt (map fst out)
+  (* under it each streamed trace once ... *)
+  /\ (forall nm jobs, In (nm, jobs) s -> StronglySorted Pos.lt (map trace_id jobs))
+  (* ... and for each trace one [JOk] result: one row per span of the trace in stream order, carrying
+     the workflow name and the trace id, with links inside the trace *)
+  /\ Forall2 (fun nj nr => fst nr = fst nj /\
+        Forall2 (fun j r => exists rows, r = JOk rows /\ map rid rows = map eid j
+                   /\ (forall x, In x rows -> rname x = fst nj /\ rjob x = trace_id j)
+                   /\ (forall x q, In x rows -> In q (rprev x) -> In q (map rid rows)))
+                (snd nj) (snd nr)) s out
+  (* exactly one row per stored span that passes the filters *)
+  /\ Permutation (map rid (all_rows out)) (Rel.ids (filter (keep fm fn) (db st)))
+  /\ NoDup (map rid (all_rows out))
+  (* whole traces: every stored filtered span of the trace of a row is a row of the same result *)
+  /\ (forall nm res rows x n, In (nm, res) out -> In (JOk rows) res -> In x rows ->
+        In n (db st) -> keep fm fn n = true -> nname n = rname x -> njob n = rjob x ->
+        In (nid n) (map rid rows))
+  (* no row mentions an id of another trace *)
+  /\ (forall x q, In x (all_rows out) -> In q (rprev x) ->
+        exists n nq, In n (db st) /\ In nq (db st) /\ nid n = rid x /\ nid nq = q
+                     /\ njob nq = njob n /\ nname nq = nname n).
+Proof.
+  intros async cfg fm fn st Hnd HT s out.
+  destruct (stream_exact_model st fm fn) as [Ha [Hb [Hc [[Hd1 Hd2] [_ Hf]]]]].
+  fold s in Ha, Hb, Hc, Hd1, Hd2, Hf.
+  assert (Hfst : map fst out = map fst s).
+  { unfold out, otel_to_pv_model. rewrite map_map. reflexivity. }
+  assert (Hids : map rid (all_rows out) = map eid (flatten s)) by (apply all_rows_ids; exact HT).
+  assert (Hperm : Permutation (map rid (all_rows out)) (Rel.ids (filter (keep fm fn) (db st)))).
+  { rewrite Hids, eid_nid. unfold Rel.ids. apply Permutation_map. exact Hd2. }
+  assert (Hdb : forall nm jobs j e, In (nm, jobs) s -> In j jobs -> In e j ->
+                  In (fst e) (db st) /\ keep fm fn (fst e) = true).
+  { intros nm jobs j e H1 H2 H3. apply filter_In. eapply Permutation_in; [exact Hd2|].
+    apply in_map. eapply in_flatten; eassumption. }
+  split; [exact Hfst|]. split; [rewrite Hfst; exact Ha|]. split.
+  { intros nm jobs Hin. destruct (Hb nm jobs Hin) as [Hs _].
+    erewrite map_ext; [exact Hs|]. intros [|[n cs] j]; reflexivity. }
+  split.
+  { unfold out, otel_to_pv_model. apply Forall2_map_r. intros [nm jobs] Hin. cbn [fst snd].
+    split; [reflexivity|]. apply Forall2_map_r. intros j Hj.
+    destruct (stream_job_rows async (fst (cfg nm)) (snd (cfg nm)) fm fn st nm jobs j HT Hin Hj)
+      as [rows [Hs Hrest]]. exists rows. split; [exact Hs|exact Hrest]. }
+  split; [exact Hperm|]. split.
+  { eapply Permutation_NoDup; [apply Permutation_sym; exact Hperm|].
+    unfold Rel.ids. apply NoDup_map_filter. exact Hnd. }
+  split.
+  { intros nm res rows x n Hres Hrows Hx Hn Hk Hname Hjob.
+    destruct (out_inv async cfg s nm res rows Hres Hrows) as [jobs [j [Hin [Hj Hs]]]].
+    destruct (stream_job_rows async (fst (cfg nm)) (snd (cfg nm)) fm fn st nm jobs j HT Hin Hj)
+      as [rows' [Hs' [Hrid [Hlab _]]]].
+    rewrite Hs in Hs'. inversion Hs'; subst rows'.
+    destruct (Hlab x Hx) as [Hxn Hxj].
+    destruct j as [|e0 j']; [destruct rows; [contradiction|discriminate]|].
+    cbn [trace_id] in Hxj.
+    destruct (Hc nm jobs (e0 :: j') e0 Hin Hj (or_introl eq_refl)) as [Hnm0 _].
+    rewrite Hrid, eid_nid. apply in_map.
+    assert (H0 : In (fst e0) (map fst (e0 :: j'))) by (left; reflexivity).
+    apply (Hf nm jobs (e0 :: j') (fst e0) Hin Hj H0 n).
+    - unfold s in Hd1. rewrite <- Hd1. eapply Permutation_in; [apply Permutation_sym; exact Hd2|].
+      apply filter_In. split; assumption.
+    - congruence.
+    - congruence. }
+  { intros x q Hx Hq.
+    destruct (all_rows_inv out x Hx) as [nm [res [rows [Hres [Hrows Hxr]]]]].
+    destruct (out_inv async cfg s nm res rows Hres Hrows) as [jobs [j [Hin [Hj Hs]]]].
+    destruct (stream_job_rows async (fst (cfg nm)) (snd (cfg nm)) fm fn st nm jobs j HT Hin Hj)
+      as [rows' [Hs' [Hrid [_ Hprev]]]].
+    rewrite Hs in Hs'. inversion Hs'; subst rows'.
+    assert (H1 : In (rid x) (map eid j)) by (rewrite <- Hrid; apply in_map; exact Hxr).
+    assert (H2 : In q (map eid j)) by (rewrite <- Hrid; eapply Hprev; eassumption).
+    apply in_map_iff in H1. destruct H1 as [e [He1 He]].
+    apply in_map_iff in H2. destruct H2 as [eq [Hq1 Heq]].
+    exists (fst e), (fst eq).
+    split; [apply (Hdb nm jobs j e Hin Hj He)|]. split; [apply (Hdb nm jobs j eq Hin Hj Heq)|].
+    split; [exact He1|]. split; [exact Hq1|].
+    destruct (Hc nm jobs j e Hin Hj He) as [Hn1 Hsame].
+    destruct (Hc nm jobs j eq Hin Hj Heq) as [Hn2 _].
+    split; [apply Hsame; exact Heq|congruence]. }
+Qed.
+
+(** ** non-vacuity: the store of Store/StreamProofs.v (nine spans, five traces, three workflows,
+    both filters active) *)
+Example ex_store_ok :
+  NoDup (Rel.ids (db ex_store)) /\ StoreTrees ex_fm ex_fn ex_store.
+Proof.
+  split; [apply nodupb_spec; vm_compute; reflexivity|].
+  apply store_treesb_spec. vm_compute. reflexivity.
+Qed.
+
+Example ex_store_rows :
+  map (fun nr => (fst nr, map (fun r => map (fun x => (rid x, rprev x, rjob x)) (rows_of_result r)) (snd nr)))
+      (otel_to_pv_model false (fun _ => ([], [])) (stream ex_fm ex_fn ex_store))
+  = [ (1, [ [ (9, [4], 1); (4, [], 1); (2, [9], 1) ]; [ (7, [], 2); (5, [7], 2) ] ]);
+      (2, [ [ (3, [], 3); (1, [3], 3) ] ]) ]%positive.
+Proof. vm_compute. reflexivity. Qed.
+
+(* ------------------------------------------------------------------------------------------ *)
+(** * 13. (d) Irregular inputs: exactly when a job is skipped, fails, or is sequenced *)
+
+(** the child-id graph of a dict *)
+Definition kidmap (d : list oevent) : list (positive * list positive) :=
+  map (fun e => (eid e, ekids e)) d.
+
+(** [Term g i]: the recursion of sequence_otel_event_ancestors started at [i] terminates without a
+    KeyError: every child id met is a key, and no cycle of child lists is met *)
+Inductive Term (g : list (positive * list positive)) : positive -> Prop :=
+| Term_intro i cs : lookup i g = Some cs -> (forall c, In c cs -> Term g c) -> Term g i.
+
+(** [Reaches g i j]: [j] is [i] or is met by the recursion started at [i] *)
+Inductive Reaches (g : list (positive * list positive)) : positive -> positive -> Prop :=
+| reaches_refl i : Reaches g i i
+| reaches_step i cs c j : lookup i g = Some cs -> In c cs -> Reaches g c j -> Reaches g i j.
+
+(** exactly one parentless entry, the recursion from it terminates and meets every entry *)
+Definition Sequencable (d : list oevent) : Prop :=
+  exists r, filter is_root d = [r] /\ Term (kidmap d) (eid r)
+            /\ forall e, In e d -> Reaches (kidmap d) (eid r) (eid e).
+
+Definition ParentsClosed (job : list oevent) : Prop :=
+  forall e p, In e job -> epar e = Some p -> In p (map eid job).
+
+Lemma parents_present_spec job : parents_present job = true <-> ParentsClosed job.
+Proof.
+  unfold parents_present, ParentsClosed. rewrite forallb_forall. split.
+  - intros H e p He Hp. specialize (H e He). rewrite Hp in H. apply mem_In. exact H.
+  - intros H e He. destruct (epar e) as [p|] eqn:E; [|reflexivity]. apply mem_In. eapply H; eassumption.
+Qed.
+
+Lemma lookup_kidmap i d : lookup i (kidmap d) = option_map ekids (get i d).
+Proof.
+  induction d as [|x d IH]; [reflexivity|].
+  cbn [kidmap map lookup get]. fold (kidmap d). destruct (Pos.eqb i (eid x)); [reflexivity|exact IH].
+Qed.
+
+Lemma kidmap_erase d d' : erase d' = erase d -> kidmap d' = kidmap d.
+Proof. apply (erase_inv (fun e => (eid e, ekids e))). intros ty [n cs]. reflexivity. Qed.
+
+Lemma Reaches_snoc g i j : Reaches g i j -> forall cs c, lookup j g = Some cs -> In c cs -> Reaches g i c.
+Proof.
+  induction 1 as [i|i cs0 c0 j Hl Hc _ IH]; intros cs c Hl' Hc'.
+  - eapply reaches_step; [exact Hl'|exact Hc'|constructor].
+  - eapply reaches_step; [exact Hl|exact Hc|]. eapply IH; eassumption.
+Qed.
+
+Lemma Reaches_trans g i j k : Reaches g i j -> Reaches g j k -> Reaches g i k.
+Proof.
+  induction 1 as [i|i cs c j Hl Hc _ IH]; intros H2; [exact H2|].
+  eapply reaches_step; [exact Hl|exact Hc|]. apply IH. exact H2.
+Qed.
+
+Lemma Term_reaches g i j : Term g i -> Reaches g i j -> Term g j.
+Proof.
+  intros HT H. induction H as [i|i cs c j Hl Hc _ IH]; [exact HT|].
+  apply IH. inversion HT as [i' cs' Hl' Hk]; subst. rewrite Hl in Hl'. inversion Hl'; subst cs'.
+  apply Hk. exact Hc.
+Qed.
+
+(** an id from which the recursion terminates is not on a cycle *)
+Lemma Term_acyclic g i : Term g i -> forall cs c, lookup i g = Some cs -> In c cs -> Reaches g c i -> False.
+Proof.
+  induction 1 as [i cs0 Hl0 _ IH]. intros cs c Hl Hc Hr.
+  rewrite Hl0 in Hl. inversion Hl; subst cs0. clear Hl.
+  inversion Hr as [i'|i' cs1 c1 j Hl1 Hc1 Hr1]; subst.
+  - (* c = i: a self loop *)
+    apply (IH i Hc cs i Hl0 Hc). constructor.
+  - apply (IH c Hc cs1 c1 Hl1 Hc1).
+    eapply Reaches_snoc; [exact Hr1|exact Hl0|exact Hc].
+Qed.
+
+(** ** [run_groups0]: success and what the output consists of *)
+Definition is_some_l (o : option links) : bool := match o with Some _ => true | None => false end.
+
+Lemma run_groups0_some run gs :
+  (forall it q, In it (concat gs) -> exists l, run (it_id it) q = Some l) ->
+  forall prev, exists r, run_groups0 run gs prev = Some r.
+Proof.
+  induction gs as [|g r IH]; intros H prev; [eexists; reflexivity|].
+  cbn [run_groups0].
+  assert (Hall : forallb (fun o : option links => match o with Some _ => true | None => false end)
+                         (map (fun it => run (it_id it) prev) g) = true).
+  { apply forallb_forall. intros o Ho. apply in_map_iff in Ho. destruct Ho as [it [<- Hit]].
+    destruct (H it prev) as [l ->]; [cbn [concat]; apply in_or_app; left; exact Hit|reflexivity]. }
+  rewrite Hall.
+  destruct (IH (fun it q Hit => H it q (in_or_app _ _ _ (or_intror Hit))) (map it_id g)) as [[o2 p2] ->].
+  eexists. reflexivity.
+Qed.
+
+Lemma run_groups0_inv run gs : forall prev out p',
+  run_groups0 run gs prev = Some (out, p') ->
+  (forall it, In it (concat gs) -> exists q l, run (it_id it) q = Some l /\ incl l out)
+  /\ (forall x, In x out -> exists it q l, In it (concat gs) /\ run (it_id it) q = Some l /\ In x l).
+Proof.
+  induction gs as [|g r IH]; intros prev out p' H; cbn [run_groups0] in H.
+  - inversion H; subst. split; [intros it []|intros x []].
+  - destruct (forallb _ (map (fun it => run (it_id it) prev) g)) eqn:Hall; [|discriminate].
+    destruct (run_groups0 run r (map it_id g)) as [[o2 p2]|] eqn:Er; [|discriminate].
+    inversion H; subst. clear H. destruct (IH _ _ _ Er) as [IH1 IH2].
+    rewrite forallb_forall in Hall.
+    assert (Hg : forall it, In it g -> exists l, run (it_id it) prev = Some l).
+    { intros it Hit.
+      assert (Hin : In (run (it_id it) prev) (map (fun it => run (it_id it) prev) g))
+        by (apply in_map_iff; exists it; split; [reflexivity|exact Hit]).
+      specialize (Hall _ Hin).
+      destruct (run (it_id it) prev) as [l|]; [exists l; reflexivity|discriminate Hall]. }
+    split.
+    + intros it Hit. cbn [concat] in Hit. apply in_app_or in Hit. destruct Hit as [Hit|Hit].
+      * destruct (Hg it Hit) as [l Hl]. exists prev, l. split; [exact Hl|].
+        intros x Hx. apply in_or_app. left. apply in_flat_map. exists (Some l). split; [|exact Hx].
+        apply in_map_iff. exists it. split; [exact Hl|exact Hit].
+      * destruct (IH1 it Hit) as [q [l [Hl Hi]]]. exists q, l. split; [exact Hl|].
+        intros x Hx. apply in_or_app. right. apply Hi. exact Hx.
+    + intros x Hx. apply in_app_or in Hx. destruct Hx as [Hx|Hx].
+      * apply in_flat_map in Hx. destruct Hx as [o [Ho Hx]].
+        apply in_map_iff in Ho. destruct Ho as [it [Hrun Hit]]. subst o.
+        destruct (run (it_id it) prev) as [l|] eqn:El; [|contradiction].
+        exists it, prev, l. split; [cbn [concat]; apply in_or_app; left; exact Hit|]. split; [exact El|exact Hx].
+      * destruct (IH2 x Hx) as [it [q [l [Hit [Hl Hxl]]]]]. exists it, q, l.
+        split; [cbn [concat]; apply in_or_app; right; exact Hit|]. split; assumption.
+Qed.
+
+(** the items the recursion iterates over are exactly the looked-up children *)
+Lemma groups_items async gm kids it :
+  In it (concat (event_groups async gm (map ev_item kids))) <-> exists k, In k kids /\ it = ev_item k.
+Proof.
+  destruct (event_groups_perm async gm (map ev_item kids)) as [Hp _]. split.
+  - intros H. apply (Permutation_in _ Hp) in H. apply in_map_iff in H. destruct H as [k [<- Hk]].
+    exists k. split; [exact Hk|reflexivity].
+  - intros [k [Hk ->]]. apply (Permutation_in _ (Permutation_sym Hp)). apply in_map. exact Hk.
+Qed.
+
+Section Graph.
+  Variables (async : bool) (m : gmap) (d : list oevent).
+  Let g := kidmap d.
+
+  Lemma lookup_g e : get (eid e) d = Some e -> lookup (eid e) g = Some (ekids e).
+  Proof. intros H. unfold g. rewrite lookup_kidmap, H. reflexivity. Qed.
+
+  Lemma lookup_g_key i cs : lookup i g = Some cs -> exists e, get i d = Some e /\ ekids e = cs.
+  Proof.
+    unfold g. rewrite lookup_kidmap. destruct (get i d) as [e|]; [|discriminate].
+    intros H. inversion H. exists e. split; reflexivity.
+  Qed.
+
+  (** *** success implies termination and only reachable ids are emitted *)
+  Lemma seq_anc_sound : forall fuel e p l,
+    get (eid e) d = Some e -> seq_anc fuel async m d e p = Some l ->
+    Term g (eid e) /\ forall j, In j (map fst l) -> Reaches g (eid e) j.
+  Proof.
+    induction fuel as [|f IH]; intros e p l He H; cbn [seq_anc] in H; [discriminate|].
+    destruct (get_all d (ekids e)) as [kids|] eqn:Ek; [|discriminate].
+    destruct (run_groups0 _ _ p) as [[out p']|] eqn:Er; [|discriminate].
+    inversion H; subst l. clear H.
+    destruct (run_groups0_inv _ _ _ _ _ Er) as [H1 H2].
+    pose proof (get_all_ids _ _ _ Ek) as Hids. apply get_all_spec in Ek.
+    assert (Hkid : forall k, In k kids -> get (eid k) d = Some k /\ In (eid k) (ekids e)).
+    { intros k Hk. destruct (Forall2_in_r _ _ _ _ Ek Hk) as [c [Hc Hg]].
+      rewrite (get_eid _ _ _ Hg). split; assumption. }
+    split.
+    - apply Term_intro with (cs := ekids e); [apply lookup_g; exact He|].
+      intros c Hc. rewrite <- Hids in Hc. apply in_map_iff in Hc. destruct Hc as [k [<- Hk]].
+      destruct (Hkid k Hk) as [Hgk _].
+      destruct (H1 (ev_item k)) as [q [l' [Hrun _]]]; [apply groups_items; exists k; split; [exact Hk|reflexivity]|].
+      cbn [ev_item it_id] in Hrun. rewrite Hgk in Hrun. apply (IH k q l' Hgk Hrun).
+    - intros j Hj. rewrite map_app in Hj. apply in_app_or in Hj. destruct Hj as [Hj|Hj].
+      + apply in_map_iff in Hj. destruct Hj as [x [<- Hx]].
+        destruct (H2 x Hx) as [it [q [l' [Hit [Hrun Hxl]]]]].
+        apply groups_items in Hit. destruct Hit as [k [Hk ->]].
+        destruct (Hkid k Hk) as [Hgk Hc].
+        cbn [ev_item it_id] in Hrun. rewrite Hgk in Hrun.
+        eapply reaches_step; [apply lookup_g; exact He|exact Hc|].
+        apply (IH k q l' Hgk Hrun). apply in_map. exact Hxl.
+      + cbn [map fst] in Hj. destruct Hj as [<-|[]]. constructor.
+  Qed.
+
+  (** *** every reachable id is emitted *)
+  Lemma seq_anc_covers i j : Reaches g i j -> forall fuel e p l,
+    get i d = Some e -> seq_anc fuel async m d e p = Some l -> In j (map fst l).
+  Proof.
+    induction 1 as [i|i cs c j Hl Hc _ IH]; intros fuel e p l He H.
+    - destruct fuel as [|f]; cbn [seq_anc] in H; [discriminate|].
+      destruct (get_all d (ekids e)) as [kids|]; [|discriminate].
+      destruct (run_groups0 _ _ p) as [[out p']|]; [|discriminate].
+      inversion H; subst l. rewrite map_app. apply in_or_app. right. left.
+      cbn [fst]. apply (get_eid _ _ _ He).
+    - destruct fuel as [|f]; cbn [seq_anc] in H; [discriminate|].
+      destruct (get_all d (ekids e)) as [kids|] eqn:Ek; [|discriminate].
+      destruct (run_groups0 _ _ p) as [[out p']|] eqn:Er; [|discriminate].
+      inversion H; subst l. clear H.
+      destruct (run_groups0_inv _ _ _ _ _ Er) as [H1 _].
+      pose proof (get_all_ids _ _ _ Ek) as Hids. apply get_all_spec in Ek.
+      destruct (lookup_g_key i cs Hl) as [e' [He' Hcs]]. rewrite He in He'. inversion He'; subst e'.
+      rewrite <- Hcs, <- Hids in Hc. apply in_map_iff in Hc. destruct Hc as [k [Hkc Hk]].
+      destruct (Forall2_in_r _ _ _ _ Ek Hk) as [c' [_ Hg]].
+      assert (Hgk : get c d = Some k) by (rewrite <- Hkc, (get_eid _ _ _ Hg) in *; exact Hg).
+      destruct (H1 (ev_item k)) as [q [l' [Hrun Hincl]]]; [apply groups_items; exists k; split; [exact Hk|reflexivity]|].
+      cbn [ev_item it_id] in Hrun. rewrite Hkc, Hgk in Hrun.
+      rewrite map_app. apply in_or_app. left.
+      pose proof (IH f k q l' Hgk Hrun) as Hin. apply in_map_iff in Hin. destruct Hin as [x [<- Hx]].
+      apply in_map. apply Hincl. exact Hx.
+  Qed.
+
+  (** *** termination implies success with fuel = number of entries (no id repeats on a path) *)
+  Lemma seq_anc_complete : forall fuel e path p,
+    get (eid e) d = Some e -> Term g (eid e) ->
+    NoDup (eid e :: path) -> incl (eid e :: path) (map eid d) ->
+    (forall x, In x path -> Reaches g x (eid e)) ->
+    (length d <= fuel + length path)%nat ->
+    exists l, seq_anc fuel async m d e p = Some l.
+  Proof.
+    induction fuel as [|f IH]; intros e path p He HT Hnd Hincl Hreach Hlen.
+    - pose proof (NoDup_incl_length Hnd Hincl) as H. rewrite map_length in H. cbn [length] in H. lia.
+    - inversion HT as [i cs Hl Hkids]; subst.
+      rewrite (lookup_g e He) in Hl. inversion Hl; subst cs. clear Hl.
+      destruct (get_all_some d (ekids e)) as [kids Ek].
+      { intros c Hc. specialize (Hkids c Hc). inversion Hkids as [i cs Hl _]; subst.
+        destruct (lookup_g_key c cs Hl) as [k [Hk _]]. eapply get_in_keys. exact Hk. }
+      cbn [seq_anc]. rewrite Ek.
+      pose proof (get_all_ids _ _ _ Ek) as Hids. apply get_all_spec in Ek.
+      match goal with |- context [run_groups0 ?run ?gs p] =>
+        assert (Hr : exists r, run_groups0 run gs p = Some r);
+          [apply run_groups0_some|destruct Hr as [[out p'] Hr]; rewrite Hr; eexists; reflexivity] end.
+      intros it q Hit. apply groups_items in Hit. destruct Hit as [k [Hk ->]].
+      cbn [ev_item it_id].
+      destruct (Forall2_in_r _ _ _ _ Ek Hk) as [c [Hc Hg]].
+      pose proof (get_eid _ _ _ Hg) as Hkc. rewrite <- Hkc in Hg, Hc. rewrite Hg.
+      apply (IH k (eid e :: path) q Hg (Hkids _ Hc)).
+      + constructor; [|exact Hnd]. intros Hin.
+        apply (Term_acyclic g (eid e) HT (ekids e) (eid k) (lookup_g e He) Hc).
+        destruct Hin as [<-|Hin]; [constructor|apply Hreach; exact Hin].
+      + intros x [<-|Hx]; [eapply get_in_keys; exact Hg|apply Hincl; exact Hx].
+      + intros x [<-|Hx].
+        * eapply reaches_step; [apply lookup_g; exact He|exact Hc|constructor].
+        * eapply Reaches_snoc; [apply Hreach; exact Hx|apply lookup_g; exact He|exact Hc].
+      + cbn [length]. lia.
+  Qed.
+End Graph.
+
+(* ------------------------------------------------------------------------------------------ *)
+(** * 14. (d) The three outcomes, as iff statements over the job *)
+
+Lemma scan_some dk cts cs : (forall c, In c cs -> In c (map eid dk)) -> exists b, scan_children dk cts cs = Some b.
+Proof.
+  induction cs as [|c cs IH]; intros H; [exists false; reflexivity|].
+  cbn [scan_children]. destruct (get_Some_in c dk (H c (or_introl eq_refl))) as [k ->].
+  destruct (mem (ety k) cts); [exists true; reflexivity|].
+  apply IH. intros c' Hc'. apply H. right. exact Hc'.
+Qed.
+
+(** the rename pass cannot fail when every listed child id is a key *)
+Lemma rename_closed rs d : (forall e c, In e d -> In c (ekids e) -> In c (map eid d)) ->
+  exists d', rename_job rs d = Some d'.
+Proof.
+  intros Hc. unfold rename_job.
+  assert (H : forall order dk, erase dk = erase d ->
+              exists d', fold_left (rename_step rs) order (Some dk) = Some d').
+  { induction order as [|i order IH]; intros dk Hk; [exists dk; reflexivity|].
+    cbn [fold_left].
+    assert (Hs : exists d1, rename_step rs (Some dk) i = Some d1).
+    { unfold rename_step. destruct (get i dk) as [e|] eqn:Eg; [|exists dk; reflexivity].
+      destruct (lookup (ety e) rs) as [[mapped cts]|]; [|exists dk; reflexivity].
+      destruct (scan_some dk cts (ekids e)) as [b ->].
+      - intros c Hcin. rewrite (erase_ids _ _ Hk).
+        destruct (erase_get _ _ _ _ Hk Eg) as [e0 [He0 Hee]].
+        destruct (set_ty_fields _ _ _ Hee) as [_ [_ [Hkids _]]]. rewrite Hkids in Hcin.
+        apply (Hc e0 c (get_In _ _ _ He0) Hcin).
+      - destruct b; eexists; reflexivity. }
+    destruct Hs as [d1 Hs]. rewrite Hs. apply IH.
+    rewrite (rename_step_erase _ _ _ _ Hs). exact Hk. }
+  apply H. reflexivity.
+Qed.
+
+Lemma rows_of_dict_inv d l rows : rows_of_dict d l = Some rows ->
+  forall e, In e d -> exists ps, last_link (eid e) l = Some ps.
+Proof.
+  revert rows. induction d as [|x d IH]; intros rows H e He; [contradiction|].
+  cbn [rows_of_dict] in H. destruct (last_link (eid x) l) as [ps|] eqn:El; [|discriminate].
+  destruct (rows_of_dict d l) as [rs'|] eqn:Er; [|discriminate].
+  destruct He as [<-|He]; [exists ps; exact El|]. eapply IH; [reflexivity|exact He].
+Qed.
+
+Lemma last_link_keys i l : (exists ps, last_link i l = Some ps) <-> In i (map fst l).
+Proof.
+  unfold last_link. split.
+  - intros [ps H]. apply lookup_In in H. apply in_rev in H.
+    apply in_map_iff. exists (i, ps). split; [reflexivity|exact H].
+  - intros H. apply lookup_in_keys. rewrite map_rev. apply in_rev. rewrite rev_involutive. exact H.
+Qed.
+
+Lemma sequence_job_skipped async m rs job :
+  sequence_job async m rs job = JSkipped <-> parents_present job = false.
+Proof.
+  unfold sequence_job. destruct (parents_present job); [|split; reflexivity].
+  split; [|discriminate].
+  destruct (rename_job rs (dict_of job)) as [d'|]; [|discriminate].
+  destruct (filter is_root d') as [|r [|r2 rest]]; try discriminate.
+  destruct (seq_anc _ _ _ _ _ _) as [l|]; [|discriminate].
+  destruct (rows_of_dict d' l); discriminate.
+Qed.
+
+(** ** JSkipped: exactly the OTelTreeDisconnectedError case *)
+Theorem job_skipped_iff : forall async m rs job,
+  sequence_job async m rs job = JSkipped <->
+  exists e p, In e job /\ epar e = Some p /\ ~ In p (map eid job).
+Proof.
+  intros async m rs job. rewrite sequence_job_skipped. unfold parents_present.
+  rewrite forallb_false. split.
+  - intros [e [He Hf]]. destruct (epar e) as [p|] eqn:E; [|discriminate].
+    exists e, p. split; [exact He|]. split; [exact E|]. apply mem_false. exact Hf.
+  - intros [e [p [He [Hp Hn]]]]. exists e. split; [exact He|]. rewrite Hp. apply mem_false. exact Hn.
+Qed.
+
+(** ** JOk: exactly the sequencable dicts (whatever the mode, the group map and the rules) *)
+Theorem job_ok_iff : forall async m rs job,
+  (exists rows, sequence_job async m rs job = JOk rows) <->
+  ParentsClosed job /\ Sequencable (dict_of job).
+Proof.
+  intros async m rs job. set (d := dict_of job).
+  assert (Hnd : NoDup (map eid d)) by apply dedup_keys_nodup.
+  split.
+  - intros [rows H]. unfold sequence_job in H. fold d in H.
+    destruct (parents_present job) eqn:Epp; [|discriminate].
+    destruct (rename_job rs d) as [d'|] eqn:Eren; [|discriminate].
+    destruct (filter is_root d') as [|r' [|r2 rest]] eqn:Eroot; try discriminate.
+    destruct (seq_anc (length d') async m d' r' []) as [l|] eqn:Eseq; [|discriminate].
+    destruct (rows_of_dict d' l) as [rows'|] eqn:Erows; [|discriminate].
+    split; [apply parents_present_spec; exact Epp|].
+    pose proof (rename_job_erase _ _ _ Eren) as Her.
+    pose proof (erase_ids _ _ Her) as Hids.
+    destruct (erase_roots d' d r' (eq_sym Her) Eroot) as [r [Hroot Hrr]].
+    assert (Hr' : In r' d').
+    { assert (Hx : In r' (filter is_root d')) by (rewrite Eroot; left; reflexivity).
+      apply filter_In in Hx. tauto. }
+    assert (Hget : get (eid r') d' = Some r') by (apply get_nodup; [rewrite Hids; exact Hnd|exact Hr']).
+    destruct (seq_anc_sound async m d' _ _ _ _ Hget Eseq) as [HT Honly].
+    rewrite (kidmap_erase _ _ Her) in HT, Honly.
+    rewrite <- (set_ty_eid _ _ _ Hrr) in HT, Honly.
+    exists r. split; [exact Hroot|]. split; [exact HT|].
+    intros e He. apply Honly.
+    assert (Hk : In (eid e) (map eid d')) by (rewrite Hids; apply in_map; exact He).
+    apply in_map_iff in Hk. destruct Hk as [e' [Heq He']]. rewrite <- Heq.
+    apply last_link_keys. eapply rows_of_dict_inv; eassumption.
+  - intros [Hpc [r [Hroot [HT Hreach]]]].
+    assert (Hr : In r d).
+    { assert (Hx : In r (filter is_root d)) by (rewrite Hroot; left; reflexivity).
+      apply filter_In in Hx. tauto. }
+    assert (Hclosed : forall e c, In e d -> In c (ekids e) -> In c (map eid d)).
+    { intros e c He Hc.
+      pose proof (Term_reaches _ _ _ HT (Hreach e He)) as HTe.
+      inversion HTe as [i cs Hl Hkids]; subst.
+      rewrite (lookup_g d e (get_nodup _ _ Hnd He)) in Hl. inversion Hl; subst cs.
+      specialize (Hkids c Hc). inversion Hkids as [i cs Hl2 _]; subst.
+      destruct (lookup_g_key d c cs Hl2) as [k [Hk _]]. eapply get_in_keys. exact Hk. }
+    destruct (rename_closed rs d Hclosed) as [d' Eren].
+    pose proof (rename_job_erase _ _ _ Eren) as Her.
+    pose proof (erase_ids _ _ Her) as Hids.
+    destruct (erase_roots d d' r Her Hroot) as [r' [Eroot Hrr]].
+    assert (Hr' : In r' d').
+    { assert (Hx : In r' (filter is_root d')) by (rewrite Eroot; left; reflexivity).
+      apply filter_In in Hx. tauto. }
+    assert (Hnd' : NoDup (map eid d')) by (rewrite Hids; exact Hnd).
+    assert (Hget : get (eid r') d' = Some r') by (apply get_nodup; assumption).
+    assert (HT' : Term (kidmap d') (eid r')).
+    { rewrite (kidmap_erase _ _ Her), (set_ty_eid _ _ _ Hrr). exact HT. }
+    destruct (seq_anc_complete async m d' (length d') r' [] [] Hget HT') as [l Eseq].
+    { constructor; [intros []|constructor]. }
+    { intros x [<-|[]]. apply in_map. exact Hr'. }
+    { intros x []. }
+    { lia. }
+    destruct (rows_of_dict_some (fun i => last_link i l) d' l) as [rows [Erows _]].
+    { reflexivity. }
+    { intros e' He'. apply last_link_keys.
+      apply (seq_anc_covers async m d' (eid r') (eid e')) with (fuel := length d') (e := r') (p := []);
+        [|exact Hget|exact Eseq].
+      rewrite (kidmap_erase _ _ Her), (set_ty_eid _ _ _ Hrr).
+      assert (Hk : In (eid e') (map eid d)) by (rewrite <- Hids; apply in_map; exact He').
+      apply in_map_iff in Hk. destruct Hk as [e [Heq He]]. rewrite <- Heq. apply Hreach. exact He. }
+    exists rows. unfold sequence_job. fold d.
+    rewrite (proj2 (parents_present_spec job) Hpc), Eren, Eroot, Eseq, Erows. reflexivity.
+Qed.
+
+(** ** JError: parents present but the dict is not sequencable -
+    ValueError (zero or several parentless entries), KeyError (a child id met by the recursion,
+    or scanned by the rename pass, is not a key; or an entry is not met by the recursion) or
+    RecursionError (a cycle of child lists is met) *)
+Theorem job_error_iff : forall async m rs job,
+  sequence_job async m rs job = JError <->
+  ParentsClosed job /\ ~ Sequencable (dict_of job).
+Proof.
+  intros async m rs job. split.
+  - intros H. split.
+    + apply parents_present_spec. destruct (parents_present job) eqn:E; [reflexivity|].
+      apply (sequence_job_skipped async m rs) in E. congruence.
+    + intros Hs.
+      assert (Hp : ParentsClosed job).
+      { apply parents_present_spec. destruct (parents_present job) eqn:E; [reflexivity|].
+        apply (sequence_job_skipped async m rs) in E. congruence. }
+      destruct (proj2 (job_ok_iff async m rs job) (conj Hp Hs)) as [rows Hr]. congruence.
+  - intros [Hp Hn]. destruct (sequence_job async m rs job) as [| |rows] eqn:E; [|reflexivity|].
+    + apply sequence_job_skipped in E. apply parents_present_spec in Hp. congruence.
+    + exfalso. apply Hn. apply (proj1 (job_ok_iff async m rs job)). exists rows. exact E.
+Qed.
+
+(** the class of the outcome depends on ids, parent pointers and child lists only *)
+Corollary outcome_class_shape : forall async m rs async' m' rs' job,
+  match sequence_job async m rs job, sequence_job async' m' rs' job with
+  | JSkipped, JSkipped | JError, JError | JOk _, JOk _ => True
+  | _, _ => False
+  end.
+Proof.
+  intros async m rs async' m' rs' job.
+  destruct (sequence_job async m rs job) as [| |rows] eqn:E1.
+  - apply sequence_job_skipped in E1. apply (sequence_job_skipped async' m' rs') in E1. rewrite E1. exact I.
+  - apply job_error_iff in E1. apply (job_error_iff async' m' rs') in E1. rewrite E1. exact I.
+  - assert (H : exists rows, sequence_job async m rs job = JOk rows) by (exists rows; exact E1).
+    apply job_ok_iff in H. apply (job_ok_iff async' m' rs') in H. destruct H as [rows' ->]. exact I.
+Qed.
+
+(** ** one Example per modelled Python exception *)
+Local Open Scope positive_scope.
+
+(** OTelTreeDisconnectedError -> the job is skipped with a warning *)
+Example ex_skipped :
+  sequence_job false [] [] [ev 1 None 7 2 1 0 10 1 [2]; ev 2 (Some 9) 7 2 2 1 2 1 []] = JSkipped.
+Proof. vm_compute. reflexivity. Qed.
+
+(** ValueError: two parentless events *)
+Example ex_two_roots :
+  sequence_job false [] [] [ev 1 None 7 2 1 0 10 1 [2]; ev 2 (Some 1) 7 2 2 1 2 1 []; ev 3 None 7 2 3 3 4 1 []]
+  = JError.
+Proof. vm_compute. reflexivity. Qed.
+
+(** ValueError: no parentless event (the empty stream, and a span that is its own parent) *)
+Example ex_no_root :
+  sequence_job false [] [] [] = JError
+  /\ sequence_job false [] [] [ev 1 (Some 1) 7 2 1 0 10 1 []] = JError.
+Proof. split; vm_compute; reflexivity. Qed.
+
+(** KeyError in sequence_otel_event_ancestors: child id 3 is listed but not streamed *)
+Example ex_child_missing :
+  let job := [ev 1 None 7 2 1 0 10 1 [2; 3]; ev 2 (Some 1) 7 2 2 1 2 1 []] in
+  sequence_job false [] [] job = JError
+  /\ filter is_root job = [ev 1 None 7 2 1 0 10 1 [2; 3]]
+  /\ seq_anc 2 false [] job (ev 1 None 7 2 1 0 10 1 [2; 3]) [] = None.
+Proof. repeat split; vm_compute; reflexivity. Qed.
+
+(** KeyError already in update_event_type_based_on_children (raised by the OUTER generator): the
+    same job with a rule on the root's type *)
+Example ex_child_missing_rename :
+  let job := [ev 1 None 7 2 1 0 10 1 [2; 3]; ev 2 (Some 1) 7 2 2 1 2 1 []] in
+  sequence_job false [] [(1, (9, [5]))] job = JError /\ rename_job [(1, (9, [5]))] (dict_of job) = None.
+Proof. split; vm_compute; reflexivity. Qed.
+
+(** KeyError in the final loop of sequence_otel_event_job: span 2 is streamed (its parent exists) but
+    is in no child list, the recursion from the root never reaches it *)
+Example ex_unreachable :
+  let job := [ev 1 None 7 2 1 0 10 1 []; ev 2 (Some 1) 7 2 2 1 2 1 []] in
+  sequence_job false [] [] job = JError
+  /\ seq_anc 2 false [] job (ev 1 None 7 2 1 0 10 1 []) [] = Some [(1, [])]
+  /\ rows_of_dict job [(1, [])] = None.
+Proof. repeat split; vm_compute; reflexivity. Qed.
+
+(** RecursionError: the child lists form a cycle *)
+Example ex_cycle :
+  let job := [ev 1 None 7 2 1 0 10 1 [2]; ev 2 (Some 1) 7 2 2 1 2 1 [1]] in
+  sequence_job false [] [] job = JError /\ get_all job [1; 2] = Some job
+  /\ ~ Term (kidmap job) 1.
+Proof.
+  split; [vm_compute; reflexivity|]. split; [vm_compute; reflexivity|].
+  intros H. apply (Term_acyclic _ _ H [2] 2); [reflexivity|left; reflexivity|].
+  eapply reaches_step; [reflexivity|left; reflexivity|constructor].
+Qed.
+
+(** no exception although the job is not a tree: a child id listed twice is sequenced twice and ends
+    up as its own predecessor (the implementation emits exactly these rows) *)
+Example ex_dup_child :
+  let job := [ev 1 None 7 2 1 0 10 1 [2; 2]; ev 2 (Some 1) 7 2 2 1 2 1 []] in
+  sequence_job false [] [] job
+  = JOk [ (1, 1, [2], "1970-01-01T00:00:00.000000Z"%string, 7, 2, 1);
+          (2, 2, [2], "1970-01-01T00:00:00.000000Z"%string, 7, 2, 1) ]
+  /\ build_tree job = None.
+Proof. split; vm_compute; reflexivity. Qed.
+
+(** an event id streamed twice: the dict keeps the first position and the last value *)
+Example ex_dup_event_id :
+  let job := [ev 1 None 7 2 1 0 10 1 [2]; ev 2 (Some 1) 7 2 2 1 2 1 []; ev 2 (Some 1) 7 2 3 1 5 1 []] in
+  dict_of job = [ev 1 None 7 2 1 0 10 1 [2]; ev 2 (Some 1) 7 2 3 1 5 1 []]
+  /\ sequence_job false [] [] job
+     = JOk [ (1, 1, [2], "1970-01-01T00:00:00.000000Z"%string, 7, 2, 1);
+             (2, 3, [], "1970-01-01T00:00:00.000000Z"%string, 7, 2, 1) ].
+Proof. split; vm_compute; reflexivity. Qed.
+
+(* ------------------------------------------------------------------------------------------ *)
+(** * 15. Corollaries and remaining non-vacuity witnesses *)
+
+Corollary TreeJob_sequencable job : TreeJob job -> ParentsClosed job /\ Sequencable job.
+Proof.
+  intros HT. destruct (sequence_job_ok false [] [] job HT) as [t [rows [_ [Hs _]]]].
+  assert (H : exists rows, sequence_job false [] [] job = JOk rows) by (exists rows; exact Hs).
+  apply job_ok_iff in H. rewrite (dict_of_nodup job (tj_ids job HT)) in H. exact H.
+Qed.
+
+(** a sequencable job need not be a tree (see [ex_dup_child]) *)
+Example sequencable_not_tree :
+  let job := [ev 1 None 7 2 1 0 10 1 [2; 2]; ev 2 (Some 1%positive) 7 2 2 1 2 1 []]%positive in
+  Sequencable (dict_of job) /\ ~ TreeJob job.
+Proof.
+  cbv zeta. split.
+  - assert (H : exists rows, sequence_job false [] []
+                 [ev 1 None 7 2 1 0 10 1 [2; 2]; ev 2 (Some 1%positive) 7 2 2 1 2 1 []]%positive = JOk rows).
+    { eexists. vm_compute. reflexivity. }
+    apply job_ok_iff in H. tauto.
+  - intros HT. apply tree_jobb_complete in HT. vm_compute in HT. discriminate.
+Qed.
+
+Example ex_job_hyps : build_tree ex_job <> None /\ parents_present ex_job = true.
+Proof. split; [vm_compute; discriminate|vm_compute; reflexivity]. Qed.
+
+(** the rows of [ex_job] are those of C08's [to_pv] on the built tree *)
+Example ex_job_to_pv :
+  forall t, build_tree ex_job = Some t ->
+  exists rows, sequence_job true [(1, [(2, 7); (9, 7)])]%positive [(3, (9, [4]))]%positive ex_job = JOk rows
+    /\ map row3_to_row rows
+       = to_pv true [(1, [(2, 7); (9, 7)])]%positive [(3, (9, [4]))]%positive (map eid ex_job) t.
+Proof. intros t Ht. apply sequence_job_to_pv; [exact Ht|vm_compute; reflexivity]. Qed.
